@@ -80,81 +80,88 @@ def AggKind.shardedJson : AggKind → List (List Bat) → Json
   | .collect, outs =>
     toJson (collectM.result (collectM.mergeStates (outs.map fun o => collectM.feed (o.map col0))))
 
-structure PStage where
-  ops : List (Op Bat)
-  kinds : List AggKind
+/-- one item of the program: an operator, or an aggregate (with its kind for the JSON answer) -/
+inductive PItem where
+  | op (o : Op Bat)
+  | agg (k : AggKind)
 
-def PStage.st (s : PStage) : Stage Bat := { ops := s.ops, aggs := s.kinds.map AggKind.agg }
+def PItem.item : PItem → Item Bat
+  | .op o => .op o
+  | .agg k => .agg k.agg
 
-def parseStage (width : Nat) (j : Json) : Except String PStage := do
-  let ops ← (← Driver.getArr j "ops").toList.mapM (parseOp width)
-  let kinds ← (← Driver.getArr j "aggs").toList.mapM parseAgg
-  return { ops := ops, kinds := kinds }
+def parseItem (width : Nat) (j : Json) : Except String PItem :=
+  match j.getObjVal? "agg" with
+  | .ok _ => do
+    match (← Driver.getStr j "agg") with
+    | "moments" => return .agg .moments
+    | "collect" => return .agg .collect
+    | s => throw s!"bad agg {s}"
+  | .error _ => do return .op (← parseOp width j)
 
-def batJson (b : Bat) : Json := toJson b
-def outJson (o : List Bat) : Json := Json.arr (o.map batJson).toArray
+structure PTransform where
+  attach : Attach
+  items : List PItem
+
+def parseTransform (width : Nat) (j : Json) : Except String PTransform := do
+  let a ← match (← Driver.getStr j "attach") with
+    | "chain" => pure Attach.chain
+    | "fuse" => pure Attach.fuse
+    | s => throw s!"bad attach {s}"
+  let its ← (← Driver.getArr j "items").toList.mapM (parseItem width)
+  return { attach := a, items := its }
+
+def outJson (o : List Bat) : Json := Json.arr (o.map (toJson ·)).toArray
 
 /-- round-robin parts of `ShardedIterable`: part `j` = the elements at the positions `≡ j (mod k)` -/
 def rrParts {α : Type} (k : Nat) (xs : List α) : List (List α) :=
   (List.range k).map fun j => (xs.zipIdx.filter fun p => p.2 % k == j).map (·.1)
 
-/-- per-part sequential chained runs: for every stage, the per-part output streams -/
-def partRuns (p : List (Stage Bat)) (parts : List (List Bat)) : List (List (List Bat)) :=
-  (List.range p.length).map fun i => parts.map fun part => ((stageOuts p part)[i]?).getD []
+/-- the kinds of all aggregates in program order (same order as `aggFeeds`) -/
+def kindsOf (ts : List PTransform) : List AggKind :=
+  ts.flatMap fun t => t.items.filterMap fun | .agg k => some k | .op _ => none
 
-def shardedJson (ps : List PStage) (parts : List (List Bat)) : Json :=
-  let p := ps.map (·.st)
-  let runs := partRuns p parts
+/-- aggregate results of the sequential run, in program order -/
+def aggsJson (kinds : List AggKind) (p : List (Stage Bat)) (data : List Bat) : Json :=
+  Json.arr ((kinds.zip (aggFeeds p data)).map fun (k, af) => k.resultJson af.2).toArray
+
+/-- per-part sequential chained runs, then `merge_states` per aggregate in part order -/
+def shardedJson (kinds : List AggKind) (p : List (Stage Bat)) (parts : List (List Bat)) : Json :=
+  let feeds : List (List (List Bat)) := parts.map fun part => (aggFeeds p part).map (·.2)
   Json.mkObj [
     ("parts", Json.arr (parts.map outJson).toArray),
-    -- what the shard runs emit, shard after shard (final stage)
     ("out", outJson ((parts.map (output p)).flatten)),
-    ("aggs", Json.arr ((ps.zip runs).map fun (s, outs) =>
-        Json.arr (s.kinds.map fun k => k.shardedJson outs).toArray).toArray)]
+    ("aggs", Json.arr (kinds.zipIdx.map fun (k, i) =>
+        k.shardedJson (feeds.map fun f => (f[i]?).getD [])).toArray)]
 
-/-- request `{"model":"strategy","width":w,"data":[batch..],"stages":[{"ops":[..],"aggs":[..]}..],
-"shards":[k..],"rr":[k..],"fuse":[i..]}` →
-sequential stage outputs and aggregate results, the per-shard-count answers, and for every `i` in
-`fuse` whether stage `i` may be fused with stage `i+1` (`fuse?`) and, if so, that the regrouped
-pipeline has the same answers (computed, not assumed). -/
+/-- request `{"model":"strategy","width":w,"data":[batch..],
+"transforms":[{"attach":"chain"|"fuse","items":[op|{"agg":kind}..]}..],"shards":[k..],"rr":[k..]}` →
+`err` if the assembly is refused, else the sequential output, every stage's output, every aggregate's
+result (program order), and the same for the per-shard runs + `merge_states` for every requested
+shard count (contiguous `SequenceDataSource` shards, round-robin `ShardedIterable` shards). -/
 def handle (j : Json) : Except String Json := do
   let width ← Driver.getNat j "width"
   let data : List Bat ← (← Driver.getArr j "data").toList.mapM fun b => do
     (← b.getArr?).toList.mapM fun r => do (← r.getArr?).toList.mapM (·.getInt?)
-  let ps ← (← Driver.getArr j "stages").toList.mapM (parseStage width)
-  let p := ps.map (·.st)
-  let outs := stageOuts p data
+  let ts ← (← Driver.getArr j "transforms").toList.mapM (parseTransform width)
   let ks ← match j.getObjVal? "shards" with
     | .ok v => do (← v.getArr?).toList.mapM (·.getNat?)
     | .error _ => pure []
   let rr ← match j.getObjVal? "rr" with
     | .ok v => do (← v.getArr?).toList.mapM (·.getNat?)
     | .error _ => pure []
-  let fz ← match j.getObjVal? "fuse" with
-    | .ok v => do (← v.getArr?).toList.mapM (·.getNat?)
-    | .error _ => pure []
-  let fuseJson (i : Nat) : Json :=
-    match ps[i]?, ps[i+1]? with
-    | some a, some b =>
-      match a.st.fuse? b.st with
-      | .error e => Json.mkObj [("i", toJson i), ("err", Driver.errJson e)]
-      | .ok s =>
-        let q := p.take i ++ s :: p.drop (i + 2)
-        let kq : List PStage := ps.take i ++ { ops := s.ops, kinds := a.kinds ++ b.kinds } :: ps.drop (i + 2)
-        Json.mkObj [("i", toJson i), ("err", Json.null),
-          ("out", outJson (output q data)),
-          ("aggs", Json.arr ((kq.zip (stageOuts q data)).flatMap fun (s, o) =>
-              s.kinds.map fun k => k.resultJson o).toArray)]
-    | _, _ => Json.mkObj [("i", toJson i), ("err", Json.str "no such stage")]
-  return Json.mkObj [
-    ("out", outJson (output p data)),
-    ("stage_outs", Json.arr (outs.map outJson).toArray),
-    ("aggs", Json.arr ((ps.zip outs).map fun (s, o) =>
-        Json.arr (s.kinds.map fun k => k.resultJson o).toArray).toArray),
-    ("shards", Json.arr (ks.map fun k =>
-        Json.mkObj [("k", toJson k), ("r", shardedJson ps (shardParts (DS.root data.length) k data))]).toArray),
-    ("rr", Json.arr (rr.map fun k =>
-        Json.mkObj [("k", toJson k), ("r", shardedJson ps (rrParts k data))]).toArray),
-    ("fuse", Json.arr (fz.map fuseJson).toArray)]
+  let kinds := kindsOf ts
+  match assemble (ts.map fun t => (t.attach, t.items.map PItem.item)) with
+  | .error e => return Json.mkObj [("err", Driver.errJson e)]
+  | .ok p =>
+    return Json.mkObj [
+      ("err", Json.null),
+      ("nstages", toJson p.length),
+      ("out", outJson (output p data)),
+      ("stage_outs", Json.arr ((stageOuts p data).map outJson).toArray),
+      ("aggs", aggsJson kinds p data),
+      ("shards", Json.arr (ks.map fun k =>
+          Json.mkObj [("k", toJson k), ("r", shardedJson kinds p (shardParts (DS.root data.length) k data))]).toArray),
+      ("rr", Json.arr (rr.map fun k =>
+          Json.mkObj [("k", toJson k), ("r", shardedJson kinds p (rrParts k data))]).toArray)]
 
 end Driver.Strategy
